@@ -26,16 +26,17 @@ inductive Shape
   | multiPolygon (polys : List (List Pt × List (List Pt)))
   deriving DecidableEq, Repr, Inhabited
 
-/-- `shapely.geometry.box(minx, miny, maxx, maxy)` (ccw): exterior ring, closed -/
-def boxRing (x0 y0 x1 y1 : Rat) : List Pt :=
-  [(x1, y0), (x1, y1), (x0, y1), (x0, y0), (x1, y0)]
-
 /-- shapely builds a `LinearRing` from every ring: an open ring gets its first vertex
     appended, and so does a closed ring of only three vertices (a ring has at least four) -/
 def closeRing (r : List Pt) : List Pt :=
   match r with
   | [] => []
   | p :: _ => if r.getLast? ≠ some p ∨ r.length < 4 then r ++ [p] else r
+
+/-- `shapely.geometry.box(minx, miny, maxx, maxy)` (ccw): the four corners made into a
+    `LinearRing` (so a zero-width box, whose first and last corner coincide, has four vertices) -/
+def boxRing (x0 y0 x1 y1 : Rat) : List Pt :=
+  closeRing [(x1, y0), (x1, y1), (x0, y1), (x0, y0)]
 
 /-- `Polygon(shell = rings[0], holes = rings[1:])` -/
 def polyOf (rings : List (List Pt)) : List Pt × List (List Pt) :=
